@@ -55,6 +55,19 @@ func verifC07x(tableLen, colLen, textLen, fmtSet int, mode string, quoteOnly boo
 	// Second region: the goose / dbmate readers scan with the generic options, so
 	// texts needing the dialect's escape rules (quotes, backslashes) are misread.
 	textSpecial := verifOr(verifSpecial(def, "\"\\'"), verifSpecial(cmt, "\"\\'"))
+	// Third region (listed finding C07-foreign-reader-multiline): the goose / dbmate readers
+	// work line by line (bufio.ScanLines, trailing blanks trimmed, a line ending in ';' ends the
+	// statement), so a literal with a line break that follows white space or a semicolon is not
+	// read back verbatim. The region is exactly that shape.
+	multiline := verifOr(verifBrokenLine(def), verifBrokenLine(cmt))
+	if fmtSet == 2 {
+		switch {
+		case mode == "witness-multiline":
+			verifAssume(multiline)
+		case verifKnown("C07-foreign-reader-multiline"):
+			verifAssume(!multiline)
+		}
+	}
 	switch mode {
 	case "main":
 		if verifKnown("C07-postgres-ident-quote") {
@@ -105,7 +118,9 @@ func verifC07x(tableLen, colLen, textLen, fmtSet int, mode string, quoteOnly boo
 	case 3:
 		f = &sqltool.DBMateFile{LocalFile: f.(*migrate.LocalFile)}
 	}
-	verifObserve("file", string(files[0].Bytes()))
+	if fi != 5 { // the Liquibase changeset id carries the current time
+		verifObserve("file", string(files[0].Bytes()))
+	}
 	stmts, err := migrate.FileStmts(&Driver{}, f)
 	if err != nil {
 		verifReach("scan-error")
@@ -122,13 +137,26 @@ func verifC07x(tableLen, colLen, textLen, fmtSet int, mode string, quoteOnly boo
 	}
 }
 
-func VerifHarness_C07_postgres_atlas()          { verifC07(1, 1, 0, "main") }
-func VerifHarness_C07_postgres_atlas_names2()   { verifC07(2, 0, 0, "main") }
-func VerifHarness_C07_postgres_atlas_texts2()   { verifC07(0, 2, 0, "main") }
-func VerifHarness_C07_postgres_atlas_q3()       { verifC07x(3, 1, 0, 0, "main", true) }
-func VerifHarness_C07_postgres_atlas_n1()       { verifC07(1, 0, 0, "main") }
-func VerifHarness_C07_postgres_atlas_t1()       { verifC07(0, 1, 0, "main") }
-func VerifHarness_C07_postgres_plain()          { verifC07(0, 1, 1, "main") }
-func VerifHarness_C07_postgres_foreign()        { verifC07(0, 1, 2, "main") }
-func VerifHarness_C07_postgres_witness_ident()  { verifC07(1, 0, 0, "witness-ident") }
-func VerifHarness_C07_postgres_witness_reader() { verifC07(0, 1, 2, "witness-reader") }
+func VerifHarness_C07_postgres_atlas()             { verifC07(1, 1, 0, "main") }
+func VerifHarness_C07_postgres_atlas_names2()      { verifC07(2, 0, 0, "main") }
+func VerifHarness_C07_postgres_atlas_texts2()      { verifC07(0, 2, 0, "main") }
+func VerifHarness_C07_postgres_atlas_q3()          { verifC07x(3, 1, 0, 0, "main", true) }
+func VerifHarness_C07_postgres_atlas_n1()          { verifC07(1, 0, 0, "main") }
+func VerifHarness_C07_postgres_atlas_t1()          { verifC07(0, 1, 0, "main") }
+func VerifHarness_C07_postgres_plain()             { verifC07(0, 1, 1, "main") }
+func VerifHarness_C07_postgres_foreign()           { verifC07(0, 1, 2, "main") }
+func VerifHarness_C07_postgres_foreign2()          { verifC07(0, 2, 2, "main") }
+func VerifHarness_C07_postgres_witness_multiline() { verifC07(0, 2, 2, "witness-multiline") }
+func VerifHarness_C07_postgres_witness_ident()     { verifC07(1, 0, 0, "witness-ident") }
+func VerifHarness_C07_postgres_witness_reader()    { verifC07(0, 1, 2, "witness-reader") }
+
+// verifBrokenLine: the text has a line break directly after white space or a semicolon.
+func verifBrokenLine(s string) bool {
+	r := false
+	for i := 1; i < len(s); i++ {
+		p := s[i-1]
+		ws := verifOr(verifOr(p == ' ', p == '\t'), verifOr(verifOr(p == '\r', p == '\n'), verifOr(p == '\v', p == '\f')))
+		r = verifOr(r, verifAnd(s[i] == '\n', verifOr(ws, p == ';')))
+	}
+	return r
+}
